@@ -79,6 +79,26 @@ def _c15_parent_segment(prob, case, flavor):
     return False
 
 
+def _c15_completed_invoked_child(prob, case, flavor):
+    """F71 (async engine): a running actor below an INVOKED machine that finished by itself (status done / error) and was
+    dropped from its parent's children map un-stopped - seen at once (`running-under-dropped-finished-ancestor`) or when
+    an actor further up is stopped later and the stop does not reach it (`running-under-stopped-ancestor`).  Only when the
+    finished, never-stopped actor above it is one the case INVOKES (`invoke` of its parent's kind) and only for cases
+    that complete actors at all; every other orphan / zombie is still a violation"""
+    if flavor != "async" or not case.get("completion"):
+        return False
+    if prob.get("kind") not in ("running-under-dropped-finished-ancestor", "running-under-stopped-ancestor"):
+        return False
+    fa = prob.get("finished_unstopped_ancestor")
+    if not fa or prob.get("id_reused"):
+        return False
+    # an invoked child of the async engine is named <parent id>:<src>:u<n>, <src> being what the parent's kind invokes
+    segs = str(fa).split(":")
+    if len(segs) < 3 or not (segs[-1].startswith("u") and segs[-1][1:].isdigit()):
+        return False
+    return segs[-2] in [v for v in (case.get("invoke") or {}).values() if v]
+
+
 CLASSIFIERS = {
     "c15-registry-keeps-stopped-actor": _c15_registry_keeps_stopped,
     "c15-async-stopped-actor-processes-queued-event": _c15_received_after_stop,
@@ -86,4 +106,5 @@ CLASSIFIERS = {
     "c15-sync-child-not-started-when-spawn-returns": _c15_sync_unstarted,
     "c15-source-key-fallback-not-ambiguity-checked": _c15_source_key,
     "c15-segment-match-includes-parents-own-segments": _c15_parent_segment,
+    "c15-async-completed-invoked-child-dropped-unstopped": _c15_completed_invoked_child,
 }
